@@ -74,6 +74,12 @@ SubstTy(t, genv) ==
 Bind(generics, args) == [i \in DOMAIN generics |-> [name |-> generics[i], ty |-> args[i]]]
 
 IsSubstituted(S, path) == \E i \in DOMAIN S.subs : S.subs[i].src.segs = path
+\* the rule in force for a source path: the last one inserted
+RuleFor(S, path) == S.subs[CHOOSE i \in DOMAIN S.subs : S.subs[i].src.segs = path /\ \A j \in DOMAIN S.subs : S.subs[j].src.segs = path => j <= i]
+SingleIdent(t) == IF t.k = "path" /\ ~t.lead /\ Len(t.segs) = 1 /\ Len(t.args) = 0 THEN t.segs[1] ELSE ""
+\* position of a declared source parameter name (first occurrence), 0 if none
+SrcIdx(rule, n) == LET idx == {i \in DOMAIN rule.src.args : SingleIdent(rule.src.args[i]) = n} IN
+                   IF n = "" \/ idx = {} THEN 0 ELSE CHOOSE i \in idx : \A j \in idx : i <= j
 
 InAsm(asm, id, t) == \E i \in DOMAIN asm : asm[i][1] = id /\ asm[i][2] = t
 
@@ -87,6 +93,19 @@ UnCow(reg, id) == IF HasId(reg, id) /\ Ty(reg, id).path = <<"Cow">> /\ Len(Ty(re
 (* ------------------------------------ Faithful ------------------------------------ *)
 RECURSIVE Faithful(_, _, _, _, _, _)
 RECURSIVE FieldsFaithful(_, _, _, _, _, _, _)
+RECURSIVE SubstMatch(_, _, _, _, _, _, _, _)
+
+(* C07: an occurrence t of a substituted type matches the rule's target pattern: declared source *)
+(* parameter names are replaced - at any path-argument depth - by a type faithful to the         *)
+(* corresponding resolved argument (left untouched when the index is out of range), every       *)
+(* other token unchanged.                                                                       *)
+SubstMatch(reg, S, Root, rule, live, pat, t, asm) ==
+  LET i == SrcIdx(rule, SingleIdent(pat)) IN
+  IF i > 0 /\ i <= Len(live) THEN Faithful(reg, S, Root, live[i].ty, t, asm)
+  ELSE IF pat.k = "path"
+       THEN /\ t.k = "path" /\ t.lead = pat.lead /\ t.segs = pat.segs /\ Len(t.args) = Len(pat.args)
+            /\ \A a \in DOMAIN pat.args : SubstMatch(reg, S, Root, rule, live, pat.args[a], t.args[a], asm)
+       ELSE t = pat
 
 FieldsFaithful(reg, S, Root, rf, gf, genv, asm) ==
   /\ Len(rf) = Len(gf)
@@ -121,7 +140,14 @@ Faithful(reg, S, Root, id, t0, asm) ==
     [] d.k = "bits"    -> S.has_bits /\ t.k = "path" /\ t.lead = S.bits.lead /\ t.segs = S.bits.segs
                           /\ Len(t.args) = 2 /\ Rec(d.store, t.args[1]) /\ Rec(d.order, t.args[2])
     [] d.k \in {"comp", "var"} ->
-         IF IsSubstituted(S, e.path) THEN TRUE                     \* C07 decides substituted types
+         IF IsSubstituted(S, e.path) THEN
+              LET rule == RuleFor(S, e.path)
+                  lp == LiveParams(e)
+              IN IF Len(rule.src.args) = 0 /\ Len(rule.dst.args) = 0
+                 THEN \* no declared generics: the original resolved arguments in order
+                      /\ t.k = "path" /\ t.lead = rule.dst.lead /\ t.segs = rule.dst.segs /\ Len(t.args) = Len(lp)
+                      /\ \A i \in DOMAIN lp : Rec(lp[i].ty, t.args[i])
+                 ELSE SubstMatch(reg, S, Root, rule, lp, rule.dst, t, asm2)
          ELSE IF e.path = <<"Cow">> THEN Len(e.params) = 1 /\ e.params[1].ty # -1 /\ Rec(e.params[1].ty, t)
          ELSE IF Len(e.path) = 1 THEN
               LET tgt == PreludeTarget(S, e.path[1])
@@ -150,6 +176,13 @@ Faithful(reg, S, Root, id, t0, asm) ==
 FaithfulTop(reg, S, Root, id, t) == Faithful(reg, S, Root, id, t, <<>>)
 
 (* -------------------------------- WellFormedRust -------------------------------- *)
+RECURSIVE RefersTo(_, _)
+RefersTo(t, segs) ==   \* does the type tree mention the path (root-relative, no leading ::) anywhere?
+  CASE t.k = "path" -> (~t.lead /\ t.segs = segs) \/ \E i \in DOMAIN t.args : RefersTo(t.args[i], segs)
+    [] t.k = "tup"  -> \E i \in DOMAIN t.elems : RefersTo(t.elems[i], segs)
+    [] t.k = "arr"  -> RefersTo(t.of, segs)
+    [] OTHER -> FALSE
+
 \* all (module path, module) pairs below Root, Root included
 RECURSIVE ModsBelow(_, _)
 ModsBelow(M, prefix) ==
